@@ -1313,6 +1313,7 @@ type modLoc struct {
 	Ref   Term
 	Idx   Term
 	Whole bool
+	Sub   *Ptr // pointer into the middle of a slot (struct field path and/or array element): only that part changes
 }
 
 // modLocs interprets a modifies expression as a set of heap locations.
@@ -1370,6 +1371,9 @@ func (env *SpecEnv) modLocs(e Expr) []modLoc {
 						out = append(out, modLoc{Heap: vc.fieldName(stT, i), Ref: p.Ref})
 					}
 					return out
+				}
+				if (len(p.Path) > 0 || p.Idx != "") && !strings.HasPrefix(p.Heap, "G|") {
+					return []modLoc{{Heap: p.Heap, Ref: p.Ref, Sub: p}}
 				}
 				return []modLoc{{Heap: p.Heap, Ref: p.Ref}}
 			}
